@@ -513,6 +513,7 @@ def _worker(arg):
     cfg["tmp"] = os.path.join(cfg["work"], "tmp")
     os.makedirs(cfg["tmp"], exist_ok=True)
     out = []
+    kept = set()
     for case in cases:
         mut, data, want, label = make_input(cfg, case)
         rec = oracle(cfg, data, want, label)
@@ -520,7 +521,13 @@ def _worker(arg):
         rec["case"] = case
         rec["size"] = len(data)
         if rec["events"]:
-            rec["input"] = data if len(data) <= (1 << 20) else data[:1 << 20]
+            # input and outputs travel back only for the first occurrence of a key in this chunk
+            keys = set(k for k, _t in rec["events"])
+            if keys - kept:
+                kept |= keys
+                rec["input"] = data if len(data) <= (1 << 20) else data[:1 << 20]
+            else:
+                rec.pop("detail", None)
         out.append(rec)
     return out
 
@@ -625,7 +632,7 @@ def _seeds():
 
 
 def _report(ctx, rec, cfg, mut):
-    inp = rec.get("input", b"")
+    inp = rec.get("input", b"(input not kept: a previous case of the same chunk carried this key)")
     for key, text in rec["events"]:
         files = {"input.nano": inp,
                  "cmd.txt": "cd <dir with modules/ stdlib/ of the repo>; nano_virt input.nano --emit-nvm -o x.nvm\n"
@@ -668,9 +675,14 @@ def run(ctx):
             chunks.append([cases[i] for i in light[k:k + csz]])
         workers = max(2, NCPU)
         results = []
+        done = 0
         with ProcessPoolExecutor(workers) as ex:
             for recs in ex.map(_worker, [(cfg, c) for c in chunks]):
                 results.extend(recs)
+                done += 1
+                if not ctx.quick() and done % max(1, len(chunks) // 20) == 0:
+                    sys.stderr.write("C09 progress: %d/%d chunks, %d inputs\n" % (done, len(chunks), len(results)))
+                    sys.stderr.flush()
 
         # ------------------------------------------------------------------ evaluation
         hist = {}
@@ -734,8 +746,6 @@ def run(ctx):
         ctx.require(watchdogs <= 2, "%d inputs hit the wall-clock watchdog twice (machine overloaded?)" % watchdogs)
         ctx.require(accepted >= 100 and diagnosed >= ctx.n(2000, 50000), "too few accepted (%d) / diagnosed (%d) inputs" % (accepted, diagnosed))
         ctx.require(len(diags) >= 40, "too few distinct diagnostics reached (%d)" % len(diags))
-        for s in results[:0]:
-            pass
         if len(samples) < 3:
             for rec in results:
                 if rec["case"][0] == "mut" and len(samples) < 5:
